@@ -249,6 +249,45 @@ proof fn lemma_bs_mid_val(o: Seq<Limb>, h: nat, s: nat, w: int)
     lemma_val_ext(o, o.subrange(0, 2 * s as int), 2 * s);
 }
 
+/// the values of the pieces lhs = x ++ xt, x = x0 ++ x1 produced by split_at
+proof fn lemma_bs_split_vals(l: Seq<Limb>, x: Seq<Limb>, xt: Seq<Limb>, x0: Seq<Limb>, x1: Seq<Limb>, n: nat, s: nat, h: nat)
+    requires l.len() == n, h + h == s, s <= n,
+        x == l.subrange(0, s as int), xt == l.subrange(s as int, n as int),
+        x0 == x.subrange(0, h as int), x1 == x.subrange(h as int, s as int),
+    ensures
+        val(l, n) == val(x, s) + val(xt, (n - s) as nat) * bp(s),
+        val(x, s) == val(x0, h) + val(x1, h) * bp(h),
+        0 <= val(x0, h) < bp(h), 0 <= val(x1, h) < bp(h), 0 <= val(x, s) < bp(s), 0 <= val(xt, (n - s) as nat),
+        n == s ==> val(xt, (n - s) as nat) == 0
+{
+    lemma_bs_val_split(l, s, (n - s) as nat);
+    lemma_bs_val_split(x, h, h);
+    assert((s + (n - s)) as nat == n);
+    lemma_val_bound(x0, h); lemma_val_bound(x1, h); lemma_val_bound(x, s); lemma_val_bound(xt, (n - s) as nat);
+}
+
+/// lemma_bs_abs on the limbs of a difference
+proof fn lemma_bs_abs_seq(d: Seq<Limb>, h: nat, b: int, a: int, c: int)
+    requires val(d, h) - b * bp(h) == a - c, 0 <= a < bp(h), 0 <= c < bp(h), b == 0 || b == 1
+    ensures (b == 1) == (a < c),
+        (if b == 1 { (bp(h) - val(d, h)) % bp(h) } else { val(d, h) }) == (if a - c < 0 { c - a } else { a - c })
+{
+    lemma_val_bound(d, h);
+    lemma_bs_abs(val(d, h), b, bp(h), a, c);
+}
+
+/// adding t·B^s to the first ll limbs does not overflow  ==>  adding t to the window [s, ll) does not overflow it
+proof fn lemma_bs_tail_fit(o: Seq<Limb>, s: nat, ll: nat, t: int)
+    requires s <= ll <= o.len(), val(o, ll) + t * bp(s) < bp(ll)
+    ensures val(o.subrange(s as int, ll as int), (ll - s) as nat) + t < bp((ll - s) as nat)
+{
+    lemma_bs_window(o, s, ll); lemma_bp_add(s, (ll - s) as nat); lemma_val_bound(o, s); lemma_bp_succ(s);
+    assert((s + (ll - s)) as nat == ll);
+    let wb = val(o.subrange(s as int, ll as int), (ll - s) as nat); let q = bp((ll - s) as nat); let ps = bp(s);
+    assert((wb + t) * ps == wb * ps + t * ps) by (nonlinear_arith);
+    assert(wb + t < q) by (nonlinear_arith) requires (wb + t) * ps < ps * q, ps >= 1;
+}
+
 /// state of a carry-propagating window addition  out[off + k] += src[k]  for k in lo..i  (carry pending at off + i):
 #[verifier::opaque]
 pub open spec fn adc_win(out: Seq<Limb>, o0: Seq<Limb>, src: Seq<Limb>, off: nat, lo: nat, i: nat, carry: int, cin: int) -> bool {
@@ -275,13 +314,15 @@ proof fn lemma_bs_adc_step(oa: Seq<Limb>, ob: Seq<Limb>, o0: Seq<Limb>, src: Seq
 }
 
 /// after the window loop: the same equation on the first t limbs (limbs off + hi .. t untouched)
-proof fn lemma_bs_adc_done(out: Seq<Limb>, o0: Seq<Limb>, src: Seq<Limb>, off: nat, lo: nat, hi: nat, t: nat, carry: int, cin: int)
-    requires off + hi <= t, forall|k: int| off + hi <= k < t ==> out[k] == o0[k],
+proof fn lemma_bs_adc_done(out: Seq<Limb>, o0: Seq<Limb>, src: Seq<Limb>, off: nat, lo: nat, hi: nat, t: nat, t2: nat, carry: int, cin: int)
+    requires off + hi <= t <= t2, forall|k: int| off + hi <= k < t2 ==> out[k] == o0[k],
         adc_win(out, o0, src, off, lo, hi, carry, cin),
-    ensures val(out, t) + carry * bp(off + hi) == val(o0, t) + cin * bp(off + lo) + val(src, hi) * bp(off) - val(src, lo) * bp(off)
+    ensures val(out, t) + carry * bp(off + hi) == val(o0, t) + cin * bp(off + lo) + val(src, hi) * bp(off) - val(src, lo) * bp(off),
+        val(out, t2) - val(out, t) == val(o0, t2) - val(o0, t)
 {
     reveal(adc_win);
     lemma_tv_ext(out, o0, off + hi, t);
+    lemma_tv_ext(out, o0, t, t2);
 }
 
 /// start of a window loop (carry c pending at off + lo)
@@ -651,14 +692,8 @@ pub fn karatsuba_mul_limbs(
     let ghost xv = val(x@, s); let ghost yv = val(y@, s);
     let ghost xtv = val(xt@, (n - s) as nat); let ghost ytv = val(yt@, (m - s) as nat);
     proof {
-        lemma_bs_val_split(lhs@, s, (n - s) as nat); lemma_bs_val_split(rhs@, s, (m - s) as nat);
-        lemma_bs_val_split(x@, h, h); lemma_bs_val_split(y@, h, h);
-        assert((s + (n - s)) as nat == n); assert((s + (m - s)) as nat == m);
-        assert(x@.subrange(h as int, x@.len() as int) == x1@);
-        lemma_val_bound(x0@, h); lemma_val_bound(x1@, h); lemma_val_bound(y0@, h); lemma_val_bound(y1@, h);
-        lemma_val_bound(x@, s); lemma_val_bound(y@, s); lemma_val_bound(xt@, (n - s) as nat); lemma_val_bound(yt@, (m - s) as nat);
-        assert(xv == x0v + x1v * be); assert(yv == y0v + y1v * be);
-        assert(lhsv == xv + xtv * ps); assert(rhsv == yv + ytv * ps);
+        lemma_bs_split_vals(lhs@, x@, xt@, x0@, x1@, n, s, h);
+        lemma_bs_split_vals(rhs@, y@, yt@, y0@, y1@, m, s, h);
     }
 //@-
     // Initialize output buffer
@@ -703,12 +738,8 @@ pub fn karatsuba_mul_limbs(
     let ghost lv0 = val(s1.subrange(0, h as int), h); let ghost lv1 = val(s1.subrange(h as int, s as int), h);
     proof {
         lemma_val_ext(s1, s1.subrange(0, h as int), h);
-        lemma_val_bound(s1, h); lemma_val_bound(s1.subrange(h as int, s as int), h);
-        lemma_bs_abs(lv0, bb(borrow0), be, x0v, x1v);
-        lemma_bs_abs(lv1, bb(borrow1), be, y1v, y0v);
-        assert(neg0 == (d0 < 0) && neg1 == (d1 < 0));
-        assert((if neg0 { (be - lv0) % be } else { lv0 }) == a0);
-        assert((if neg1 { (be - lv1) % be } else { lv1 }) == a1);
+        lemma_bs_abs_seq(s1.subrange(0, h as int), h, bb(borrow0), x0v, x1v);
+        lemma_bs_abs_seq(s1.subrange(h as int, s as int), h, bb(borrow1), y1v, y0v);
     }
 //@-
     // Conditionally negate terms depending whether they borrowed
@@ -776,8 +807,7 @@ pub fn karatsuba_mul_limbs(
     while i < size
 //@+
         invariant i <= s, s == size, 2 * s <= ll, out.len() == ll, o3.len() == ll, scratch.len() == s, carry.0 <= 2,
-            forall|k: int| i <= k < ll ==> out@[k] == o3[k],
-            forall|k: int| 2 * s <= k < ll ==> out@[k].0 == 0,
+            forall|k: int| i <= k < ll ==> #[trigger] out@[k] == o3[k],
             adc_win(out@, o3, scratch@, 0, 0, i as nat, carry.0 as int, 0),
         decreases s - i
 //@-
@@ -794,13 +824,12 @@ pub fn karatsuba_mul_limbs(
     i = 0;
 //@+
     let ghost o4 = out@; let ghost v1 = val(o4, 2 * s); let ghost ca = carry.0 as int;
-    proof { lemma_bs_adc_done(o4, o3, z0, 0, 0, s, 2 * s, ca, 0); lemma_bs_adc_init(o4, z0, h, 0, 0); }
+    proof { lemma_bs_adc_done(o4, o3, z0, 0, 0, s, 2 * s, ll, ca, 0); lemma_bs_adc_init(o4, z0, h, 0, 0); }
 //@-
     while i < half
 //@+
         invariant i <= h, h == half, h + h == s, 2 * s <= ll, out.len() == ll, o4.len() == ll, scratch.len() == s, carry2.0 <= 2,
-            forall|k: int| h + i <= k < ll ==> out@[k] == o4[k],
-            forall|k: int| 2 * s <= k < ll ==> out@[k].0 == 0,
+            forall|k: int| h + i <= k < ll ==> #[trigger] out@[k] == o4[k],
             adc_win(out@, o4, scratch@, h, 0, i as nat, carry2.0 as int, 0),
         decreases h - i
 //@-
@@ -817,7 +846,7 @@ pub fn karatsuba_mul_limbs(
 //@+
     let ghost o5 = out@; let ghost v2 = val(o5, 2 * s); let ghost cb = carry2.0 as int;
     proof {
-        lemma_bs_adc_done(o5, o4, z0, h, 0, h, 2 * s, cb, 0);
+        lemma_bs_adc_done(o5, o4, z0, h, 0, h, 2 * s, ll, cb, 0);
         lemma_small_mod((ca + cb) as nat, B() as nat);
         lemma_bs_adc_init(o5, z0, h, h, ca + cb);
     }
@@ -826,8 +855,7 @@ pub fn karatsuba_mul_limbs(
     while i < size
 //@+
         invariant h <= i <= s, h == half, s == size, h + h == s, 2 * s <= ll, out.len() == ll, o5.len() == ll, scratch.len() == s, carry.0 <= 4,
-            forall|k: int| h + i <= k < ll ==> out@[k] == o5[k],
-            forall|k: int| 2 * s <= k < ll ==> out@[k].0 == 0,
+            forall|k: int| h + i <= k < ll ==> #[trigger] out@[k] == o5[k],
             adc_win(out@, o5, scratch@, h, h, i as nat, carry.0 as int, ca + cb),
         decreases s - i
 //@-
@@ -843,7 +871,7 @@ pub fn karatsuba_mul_limbs(
     }
 //@+
     let ghost o6 = out@; let ghost v3 = val(o6, 2 * s); let ghost cc = carry.0 as int;
-    proof { lemma_bs_adc_done(o6, o5, z0, h, h, s, 2 * s, cc, ca + cb); }
+    proof { lemma_bs_adc_done(o6, o5, z0, h, h, s, 2 * s, ll, cc, ca + cb); }
 //@-
     // Calculate z2 = x1•y1 into scratch
     karatsuba_mul_limbs(x1, y1, scratch, ext_scratch);
@@ -857,8 +885,7 @@ pub fn karatsuba_mul_limbs(
     while i < size
 //@+
         invariant i <= s, h == half, s == size, h + h == s, 2 * s <= ll, out.len() == ll, o6.len() == ll, scratch.len() == s, carry2.0 <= 2,
-            forall|k: int| h + i <= k < ll ==> out@[k] == o6[k],
-            forall|k: int| 2 * s <= k < ll ==> out@[k].0 == 0,
+            forall|k: int| h + i <= k < ll ==> #[trigger] out@[k] == o6[k],
             adc_win(out@, o6, scratch@, h, 0, i as nat, carry2.0 as int, 0),
         decreases s - i
 //@-
@@ -875,7 +902,7 @@ pub fn karatsuba_mul_limbs(
 //@+
     let ghost o7 = out@; let ghost v4 = val(o7, 2 * s); let ghost cd = carry2.0 as int;
     proof {
-        lemma_bs_adc_done(o7, o6, z2, h, 0, s, 2 * s, cd, 0);
+        lemma_bs_adc_done(o7, o6, z2, h, 0, s, 2 * s, ll, cd, 0);
         lemma_small_mod((cc + cd) as nat, B() as nat);
         lemma_bs_adc_init(o7, z2, s, 0, 0);
     }
@@ -886,8 +913,7 @@ pub fn karatsuba_mul_limbs(
     while i < half
 //@+
         invariant i <= h, h == half, s == size, h + h == s, 2 * s <= ll, out.len() == ll, o7.len() == ll, scratch.len() == s, carry2.0 <= 2,
-            forall|k: int| s + i <= k < ll ==> out@[k] == o7[k],
-            forall|k: int| 2 * s <= k < ll ==> out@[k].0 == 0,
+            forall|k: int| s + i <= k < ll ==> #[trigger] out@[k] == o7[k],
             adc_win(out@, o7, scratch@, s, 0, i as nat, carry2.0 as int, 0),
         decreases h - i
 //@-
@@ -904,7 +930,7 @@ pub fn karatsuba_mul_limbs(
 //@+
     let ghost o8 = out@; let ghost v5 = val(o8, 2 * s); let ghost ce = carry2.0 as int;
     proof {
-        lemma_bs_adc_done(o8, o7, z2, s, 0, h, 2 * s, ce, 0);
+        lemma_bs_adc_done(o8, o7, z2, s, 0, h, 2 * s, ll, ce, 0);
         lemma_small_mod((cc + cd + ce) as nat, B() as nat);
         lemma_bs_adc_init(o8, z2, s, h, cc + cd + ce);
     }
@@ -913,8 +939,7 @@ pub fn karatsuba_mul_limbs(
     while i < size
 //@+
         invariant h <= i <= s, h == half, s == size, h + h == s, 2 * s <= ll, out.len() == ll, o8.len() == ll, scratch.len() == s, carry.0 <= 8,
-            forall|k: int| s + i <= k < ll ==> out@[k] == o8[k],
-            forall|k: int| 2 * s <= k < ll ==> out@[k].0 == 0,
+            forall|k: int| s + i <= k < ll ==> #[trigger] out@[k] == o8[k],
             adc_win(out@, o8, scratch@, s, h, i as nat, carry.0 as int, cc + cd + ce),
         decreases s - i
 //@-
@@ -931,14 +956,14 @@ pub fn karatsuba_mul_limbs(
 //@+
     let ghost o9 = out@; let ghost v6 = val(o9, 2 * s); let ghost cf = carry.0 as int;
     proof {
-        lemma_bs_adc_done(o9, o8, z2, s, h, s, 2 * s, cf, cc + cd + ce);
+        lemma_bs_adc_done(o9, o8, z2, s, h, s, 2 * s, ll, cf, cc + cd + ce);
         lemma_val_bound(o9, 2 * s);
         assert((h + h) as nat == s); assert((h + s) as nat == s + h); assert((s + s) as nat == 2 * s);
         lemma_bs_kmul_arith(bp(0), be, ps, psh, p2s, x0v, x1v, y0v, y1v, nv, e,
             val(z0, 0), val(z0, h), val(z0, s), val(z2, 0), val(z2, h), val(z2, s),
             v1, ca, v2, cb, v3, cc, v4, cd, v5, ce, v6, cf);
         assert(v6 == xv * yv);
-        lemma_val_hi_zero(o9, 2 * s, ll);
+        lemma_val_hi_zero(o3, 2 * s, ll);
         lemma_bs_tail(xv, xtv, yv, ytv, ps, lhsv, rhsv);
     }
 //@-
@@ -946,11 +971,7 @@ pub fn karatsuba_mul_limbs(
 //@+
     proof {
         // the product added into out[size..] does not overflow that window
-        lemma_bs_window(o9, s, ll); lemma_bp_add(s, (ll - s) as nat); lemma_val_bound(o9, s);
-        assert((s + (ll - s)) as nat == ll);
-        let wb = val(o9.subrange(s as int, ll as int), (ll - s) as nat); let q = bp((ll - s) as nat); let t = xtv * rhsv;
-        assert((wb + t) * ps == wb * ps + t * ps) by (nonlinear_arith);
-        assert(wb + t < q) by (nonlinear_arith) requires (wb + t) * ps < ps * q, ps >= 1;
+        lemma_bs_tail_fit(o9, s, ll, xtv * rhsv);
     }
 //@-
     if !xt.is_empty() {
@@ -984,7 +1005,7 @@ pub fn karatsuba_mul_limbs(
         while i < out.len()
 //@+
             invariant ep <= i <= ll, out.len() == ll, o10.len() == ll,
-                forall|k: int| i <= k < ll ==> out@[k] == o10[k],
+                forall|k: int| i <= k < ll ==> #[trigger] out@[k] == o10[k],
                 val(out@, i as nat) + carry.0 as int * bp(i as nat) == val(o10, i as nat) + ytv * xv * ps,
             decreases ll - i
 //@-
